@@ -148,6 +148,63 @@ def shared_class_mutables(mods):
                         break
 
 
+def persistent_state_writes(mods):
+    """(key, construct, message, where) for every write site of the modules
+    that stores into state outliving the call: `global` / `nonlocal`,
+    module- or class-level objects, objects captured from an enclosing
+    activation, mutable default arguments, mutable class attributes mutated
+    through self.  The second result counts the sites looked at."""
+    out = []
+    nsites = 0
+    for m in mods:
+        defaults = {}
+        for clsname, fdef, chain in iter_functions(m):
+            a = fdef.args
+            names = [x.arg for x in a.args]
+            ds = [None] * (len(names) - len(a.defaults)) + list(a.defaults)
+            for n, d in list(zip(names, ds)) + list(zip(
+                    [x.arg for x in a.kwonlyargs], a.kw_defaults)):
+                if d is not None and not isinstance(d, ast.Constant):
+                    defaults[(fdef.name, n)] = d
+        for s in write_sites(m):
+            if s.kind == 'next':
+                continue
+            nsites += 1
+            construct = '%s in %s' % (s.text, s.where.split(' (line')[0])
+            key = '%s:%s%s:%s' % (m.name.split('.')[-1],
+                                  (s.cls + '.') if s.cls else '', s.func,
+                                  s.text)
+            if s.kind in ('global', 'nonlocal'):
+                out.append((key, construct, '`%s` statement: state that '
+                            'outlives the call' % s.text, s.where))
+            elif s.rootkind == 'global':
+                out.append((key, construct, 'writes to `%s`, which is '
+                            'module-level or class-level state shared by '
+                            'all calls' % s.root, s.where))
+            elif s.closure:
+                out.append((key, construct, 'writes to `%s`, an object '
+                            'created by the enclosing function %s and '
+                            'captured by %s, which outlives that activation'
+                            % (s.root, s.closure, s.func), s.where))
+            elif s.rootkind == 'param' and (s.func, s.root) in defaults:
+                out.append((key, construct, 'mutates parameter `%s` whose '
+                            'default value %s is created once and shared by '
+                            'all calls' % (s.root, ast.unparse(
+                                defaults[(s.func, s.root)])), s.where))
+    seen_cm = set()
+    for cname, attr, s in shared_class_mutables(mods):
+        if (cname, attr) in seen_cm:
+            continue
+        seen_cm.add((cname, attr))
+        out.append(('%s.%s shared mutable class attribute' % (cname, attr),
+                    '%s in %s.%s' % (s.text, s.cls, s.func),
+                    '`%s` is a mutable object created once in the class '
+                    'body of %s and never rebound per instance, but %s '
+                    'mutates it through self: all instances, hence all '
+                    'calls, share it' % (attr, cname, s.func), s.where))
+    return out, nsites
+
+
 CANARY = """
 CACHE = {}
 
